@@ -16,8 +16,19 @@ if [ "$1" = "C20" ]; then
     exit 2
   fi
 fi
+# a libFuzzer artifact (not JSON) is replayed through the fuzz target
+if [ "$2" = "replay" ] && [ -n "$3" ] && ! head -c1 "$3" | grep -q '{' && echo "$3" | grep -q "fuzz-artifacts"; then
+  t=fuzz_grammar; [ "$1" = "C16" ] && t=fuzz_toktrie
+  out=$(cd harness/fuzz && CARGO_NET_OFFLINE=true CARGO_TARGET_DIR="$VERIF_ROOT/harness/target/fuzz" cargo +nightly fuzz run $t "$3" 2>&1); frc=$?
+  if [ $frc -ne 0 ]; then echo "VIOLATION property=$1 replay=$3"; echo "$out" | grep -m3 -E "panicked|AddressSanitizer|assertion" | cut -c1-400; exit 1; fi
+  echo "[$1] artifact replays clean"; exit 0
+fi
 "$CARGO_TARGET_DIR/verif/check" "$@"
 rc=$?
+if [ $rc -eq 0 ] && [ "$2" = "thorough" ]; then
+  if [ "$1" = "C20" ]; then tools/fuzz_tier.sh C20 fuzz_grammar 25000 1500; rc=$?; fi
+  if [ "$1" = "C16" ]; then tools/fuzz_tier.sh C16 fuzz_toktrie 400000 600; rc=$?; fi
+fi
 if [ $rc -ne 0 ] && [ $rc -ne 1 ]; then
   echo "check exited with $rc (infrastructure problem, not a property result)" >&2
   exit 2
